@@ -448,3 +448,33 @@ Section Ledger.
     - apply IH. inversion DONE; auto.
   Qed.
 End Ledger.
+
+(* ------------------------------------------------------------------ concrete runs *)
+Definition ev_ (i : nat) : Cas.event := {| ev_client := i; ev_fault := FNone |}.
+Definition cfgF : config :=
+  {| cf_strict := false; cf_autoalloc := true; cf_maxblocks := 20; cf_pool_base := 167772160; cf_nblocks := 2;
+     cf_bsize := 2; cf_retries := 100; cf_starts := [(0%N, 0%nat)];
+     cf_count_requested := false; cf_aip_leak := false; cf_stale_cache := false |}.
+
+(* W4: the releaseByHandle not-found race (see the driver's scripted case 3) *)
+Definition w4_clients : list (N * list op) :=
+  [(0%N, [OpAssignIP 1 1 167772160; OpReleaseAffinity 167772160 false]);
+   (0%N, [OpReleaseByHandle 1 []]);
+   (0%N, [OpRelease [(167772160%N, None)] []]);
+   (0%N, [OpAssignIP 1 1 167772160])].
+Definition w4_sched : list Cas.event :=
+  repeat (ev_ 0) 40 ++ repeat (ev_ 1) 2 ++ repeat (ev_ 2) 20 ++ [ev_ 1] ++ repeat (ev_ 3) 20 ++ repeat (ev_ 1) 20.
+
+Definition completedb (c : Cas.cstate key value lopt (list (op * result))) : bool :=
+  match c with CRun (Ret _) => true | _ => false end.
+
+Definition w4_outcome (fy : bool) :=
+  let y := @Cas.sys_run key value lopt key_eqb key_ltb lmatch (list (op * result)) (Proofs.sys0 cfgF false fy w4_clients) w4_sched in
+  (forallb completedb (sy_clients y), hcnt_of (sy_store y) 1 167772160, alloc_of (sy_store y) 1 167772160).
+
+(* unfixed releaseByHandle: everybody has completed, the block records the address for handle 1, the handle is gone *)
+Lemma w4_refutes : w4_outcome false = (true, 0%N, 1%N).
+Proof. vm_compute. reflexivity. Qed.
+(* fixed: the handle still counts the address *)
+Lemma w4_fixed : w4_outcome true = (true, 1%N, 1%N).
+Proof. vm_compute. reflexivity. Qed.
